@@ -85,6 +85,13 @@ theorem parseLocation_fuel (bs : Bytes) (m : Nat) (hm : bs.length + 2 ≤ m) :
     (LocParse.loc m).run' ⟨bs, []⟩ = (LocParse.loc (bs.length + 2)).run' ⟨bs, []⟩ :=
   (Pars.loc_fuel_stable ⟨bs, []⟩ trivial (bs.length + 2) m (by show bs.length < _; omega) hm).symm
 
+/-- `multipleLocationParser` never returns an empty list, so the explicit
+`panic("Join without arguments is not allowed")` / `panic("Order without …")` of `Join` / `Order`
+is not reachable from `parseJoin` / `parseOrder` (the model's `Loc.join []` stands for that panic). -/
+theorem multiple_nonempty (fuel : Nat) (s s' : PS) (ls : List Loc)
+    (h : (LocParse.multiple fuel).run' s = (.ok ls, s')) : ls ≠ [] :=
+  Pars.multiple_nonempty fuel s s' ls h
+
 /-! ## modifiers -/
 
 /-- `AsModifier(s)` never panics. -/
